@@ -190,3 +190,202 @@ Example C15_witness_endz_strict :
   /\ find e 20 t false 0 (-1) = Ok (Some {| pos := 2; caps := [(0, [(1, 1)])] |})
   /\ find (mirror_env e) 20 (flip (endz_to_end t)) true 2 (-1) = Ok (Some {| pos := 0; caps := [(0, [(0, 1)])] |}).
 Proof. vm_compute. repeat split; reflexivity. Qed.
+
+(* ================================================================================================
+   The INTERPRETER (engine) level, by composition (Proofs/ComposeMirror.v): C15_attempt_mirror_partial o
+   C01_compile_correct2_exec_partial on both sides o C01 termination / totality.  No new model.
+
+   Two programs: p compiled (Writer.compile cfg0) from root = NCapture o 0 (-1) body, run on the text of e from
+   t0; p' compiled from [flip root], run on the reversed text (mirror_env e) from tlen e - t0.  Whenever both
+   execute() calls (VM.exec_at: any stack limits L, L', any interpreter fuels) RETURN a state, the two states are
+   mirror images ([cm_mirrored], spelled out in C15_exec_mirror_partial); the same for the two scans VM.vm_find
+   (C15_vm_find_mirror_partial).
+   Fragment: mirror_ok root (C15) and supported2 root + groups_ok2 for both capsizes (C01) and term_ok root with
+   term_fuel e root <= INF (C01 termination).  NOTHING is assumed about [flip root]: flip changes option words,
+   anchors and Multi literals only, so supported2 / groups_ok2 / term_ok / term_fuel are invariant
+   (C15_flip_preserves_fragments).  capsize is a field of the program, not computed from the tree, so both
+   programs carry their own slot-range hypothesis and the capture statement ranges over the common slots.
+   ================================================================================================ *)
+From Verif Require Import Model.VM Model.Writer Proofs.SpecTermProofs Proofs.CompileBase Proofs.CompileDefs
+  Proofs.CompileBalDen Proofs.CompileBalDefs
+  Proofs.ComposeMirror.
+
+Theorem C15_flip_preserves_fragments :
+  (forall t, supported2 (flip t) = supported2 t) /\
+  (forall cs t, groups_ok2 cs t <-> groups_ok2 cs (flip t)) /\
+  (forall t, term_ok (flip t) = term_ok t) /\
+  (forall e t, term_fuel (mirror_env e) (flip t) = term_fuel e t).
+Proof.
+  split; [exact cm_flip_supported2|]. split; [exact cm_flip_groups_ok2|].
+  split; [exact cm_flip_term_ok|exact cm_flip_term_fuel].
+Qed.
+Print Assumptions C15_flip_preserves_fragments.
+
+(* The engine-level mirror theorem, one execute() call on each side.  Captures: the array of slot g is read as in
+   C08 (CompileBalDen.Den: [ps] = its pairs newest first, balancing markers resolved, [stk] = the stack of live
+   captures newest first = the reference semantics' stack); the mirrored side denotes  map (mirror_span n) stk,
+   i.e. capture (i, len) |-> (n - i - len, len) position by position in the SAME stack order, exactly
+   MirrorProofs.mirror_caps.  The last four conjuncts are what match.go's isMatched / matchIndex / matchLength
+   answer on the two sides. *)
+Theorem C15_exec_mirror_partial :
+  forall (e : env) (p p' : program), 0 <= trackcount p -> 0 <= trackcount p' -> tlen e <= INF ->
+  forall L L' vfuel vfuel' o body t0 s s',
+  let root := NCapture o 0 (-1) body in
+  codes p = fst (compile cfg0 root) -> strings p = snd (compile cfg0 root) ->
+  codes p' = fst (compile cfg0 (flip root)) -> strings p' = snd (compile cfg0 (flip root)) ->
+  mirror_ok root = true -> supported2 root = true ->
+  groups_ok2 (capsize p) root -> groups_ok2 (capsize p') root ->
+  term_ok root = true -> Z.of_nat (term_fuel e root) <= INF ->
+  0 <= t0 <= tlen e ->
+  exec_at e p L vfuel t0 = Ok s ->
+  exec_at (mirror_env e) p' L' vfuel' (tlen e - t0) = Ok s' ->
+  matched0 s' = matched0 s /\
+  (matched0 s = false ->
+     mcaps s = repeat [] (Z.to_nat (capsize p)) /\ mcaps s' = repeat [] (Z.to_nat (capsize p'))) /\
+  (matched0 s = true ->
+     0 <= tp s <= tlen e /\ tp s' = tlen e - tp s /\
+     forall g, 0 <= g < capsize p -> g < capsize p' ->
+       exists ps ps' stk,
+         nth (Z.to_nat g) (mcaps s) [] = flat (rev ps) /\ Den ps stk /\
+         nth (Z.to_nat g) (mcaps s') [] = flat (rev ps') /\ Den ps' (map (mirror_span (tlen e)) stk) /\
+         (forall i len, In (i, len) stk -> 0 <= i /\ 0 <= len /\ i + len <= tlen e) /\
+         vm_is_matched g (mcaps s) = Some (match stk with [] => false | _ => true end) /\
+         vm_is_matched g (mcaps s') = Some (match stk with [] => false | _ => true end) /\
+         (forall i len rest, stk = (i, len) :: rest ->
+            vm_match_index g (mcaps s) = Some i /\ vm_match_length g (mcaps s) = Some len /\
+            vm_match_index g (mcaps s') = Some (tlen e - i - len) /\ vm_match_length g (mcaps s') = Some len)).
+Proof. exact cm_exec_mirror. Qed.
+Print Assumptions C15_exec_mirror_partial.
+
+(* [cm_mirrored e p p' s s'] IS the conclusion above. *)
+Theorem C15_mirrored_unfold :
+  forall e p p' s s', cm_mirrored e p p' s s' <->
+  (matched0 s' = matched0 s /\
+   (matched0 s = false ->
+      mcaps s = repeat [] (Z.to_nat (capsize p)) /\ mcaps s' = repeat [] (Z.to_nat (capsize p'))) /\
+   (matched0 s = true ->
+      0 <= tp s <= tlen e /\ tp s' = tlen e - tp s /\
+      forall g, 0 <= g < capsize p -> g < capsize p' ->
+        exists ps ps' stk,
+          nth (Z.to_nat g) (mcaps s) [] = flat (rev ps) /\ Den ps stk /\
+          nth (Z.to_nat g) (mcaps s') [] = flat (rev ps') /\ Den ps' (map (mirror_span (tlen e)) stk) /\
+          (forall i len, In (i, len) stk -> 0 <= i /\ 0 <= len /\ i + len <= tlen e) /\
+          vm_is_matched g (mcaps s) = Some (match stk with [] => false | _ => true end) /\
+          vm_is_matched g (mcaps s') = Some (match stk with [] => false | _ => true end) /\
+          (forall i len rest, stk = (i, len) :: rest ->
+             vm_match_index g (mcaps s) = Some i /\ vm_match_length g (mcaps s) = Some len /\
+             vm_match_index g (mcaps s') = Some (tlen e - i - len) /\ vm_match_length g (mcaps s') = Some len))).
+Proof. intros e p p' s s'. unfold cm_mirrored. reflexivity. Qed.
+Print Assumptions C15_mirrored_unfold.
+
+(* The same with the termination hypotheses (term_ok, term_fuel) replaced by one answering reference attempt. *)
+Theorem C15_exec_mirror_given_attempt_partial :
+  forall (e : env) (p p' : program), 0 <= trackcount p -> 0 <= trackcount p' -> tlen e <= INF ->
+  forall L L' fuel vfuel vfuel' o body t0 r s s',
+  let root := NCapture o 0 (-1) body in
+  codes p = fst (compile cfg0 root) -> strings p = snd (compile cfg0 root) ->
+  codes p' = fst (compile cfg0 (flip root)) -> strings p' = snd (compile cfg0 (flip root)) ->
+  mirror_ok root = true -> supported2 root = true ->
+  groups_ok2 (capsize p) root -> groups_ok2 (capsize p') root ->
+  0 <= t0 <= tlen e -> Z.of_nat fuel <= INF ->
+  attempt e fuel root t0 = Ok r ->
+  exec_at e p L vfuel t0 = Ok s ->
+  exec_at (mirror_env e) p' L' vfuel' (tlen e - t0) = Ok s' ->
+  cm_mirrored e p p' s s'.
+Proof. exact cm_exec_mirror_given_attempt. Qed.
+Print Assumptions C15_exec_mirror_given_attempt_partial.
+
+(* "The captures denoted by the two arrays" does not depend on how the arrays are read: Den is functional and
+   flat o rev is injective, so for ANY readings of the two arrays of a common slot the denoted stacks are mirror
+   images of each other (both directions), same order, and lie inside the text. *)
+Theorem C15_exec_mirror_all_readings :
+  forall (e : env) (p p' : program) (s s' : vm), cm_mirrored e p p' s s' -> matched0 s = true ->
+  forall g, 0 <= g < capsize p -> g < capsize p' ->
+  forall ps stk ps' stk',
+    nth (Z.to_nat g) (mcaps s) [] = flat (rev ps) -> Den ps stk ->
+    nth (Z.to_nat g) (mcaps s') [] = flat (rev ps') -> Den ps' stk' ->
+    stk' = map (mirror_span (tlen e)) stk /\
+    stk = map (mirror_span (tlen e)) stk' /\
+    (forall i len, In (i, len) stk -> 0 <= i /\ 0 <= len /\ i + len <= tlen e).
+Proof. exact cm_exec_mirror_all_readings. Qed.
+Print Assumptions C15_exec_mirror_all_readings.
+
+(* With C01's totality: no stack limit on either side and enough interpreter fuel -- BOTH calls return, and the two
+   states are mirror images.  Extra hypothesis of C01_exec_total: the runner's trackcount is at least the writer's
+   count for each program. *)
+Theorem C15_exec_mirror_total_partial :
+  forall (e : env) (p p' : program), 0 <= trackcount p -> 0 <= trackcount p' ->
+  track_count (codes p) <= trackcount p -> track_count (codes p') <= trackcount p' -> tlen e <= INF ->
+  forall o body t0,
+  let root := NCapture o 0 (-1) body in
+  codes p = fst (compile cfg0 root) -> strings p = snd (compile cfg0 root) ->
+  codes p' = fst (compile cfg0 (flip root)) -> strings p' = snd (compile cfg0 (flip root)) ->
+  mirror_ok root = true -> supported2 root = true ->
+  groups_ok2 (capsize p) root -> groups_ok2 (capsize p') root ->
+  term_ok root = true -> Z.of_nat (term_fuel e root) <= INF ->
+  0 <= t0 <= tlen e ->
+  exists vfuel0 : nat, forall L L' vfuel vfuel', L < 0 -> L' < 0 -> (vfuel0 <= vfuel)%nat -> (vfuel0 <= vfuel')%nat ->
+    exists s s', exec_at e p L vfuel t0 = Ok s /\
+                 exec_at (mirror_env e) p' L' vfuel' (tlen e - t0) = Ok s' /\
+                 cm_mirrored e p p' s s'.
+Proof. exact cm_exec_mirror_total. Qed.
+Print Assumptions C15_exec_mirror_total_partial.
+
+(* The scan, first over FRESH runners.  [cm_find] is Spec.find with one execute() call (VM.exec_at) in place of
+   Spec.attempt: same bump rule, same attempt positions, same stop test.  The scan of p in direction rtl from start
+   and the scan of p' in direction (negb rtl) from tlen e - start, when both return, both fail or return
+   mirror-image states. *)
+Theorem C15_fresh_scan_mirror_partial :
+  forall (e : env) (p p' : program), 0 <= trackcount p -> 0 <= trackcount p' -> tlen e <= INF ->
+  forall L L' vfuel vfuel' o body,
+  let root := NCapture o 0 (-1) body in
+  codes p = fst (compile cfg0 root) -> strings p = snd (compile cfg0 root) ->
+  codes p' = fst (compile cfg0 (flip root)) -> strings p' = snd (compile cfg0 (flip root)) ->
+  mirror_ok root = true -> supported2 root = true ->
+  groups_ok2 (capsize p) root -> groups_ok2 (capsize p') root ->
+  term_ok root = true -> Z.of_nat (term_fuel e root) <= INF ->
+  forall rtl start prevlen x x', 0 <= start <= tlen e ->
+  cm_find e p L vfuel rtl start prevlen = Ok x ->
+  cm_find (mirror_env e) p' L' vfuel' (negb rtl) (tlen e - start) prevlen = Ok x' ->
+  match x, x' with
+  | None, None => True
+  | Some s, Some s' => cm_mirrored e p p' s s'
+  | _, _ => False
+  end.
+Proof. exact cm_find_mirror. Qed.
+Print Assumptions C15_fresh_scan_mirror_partial.
+
+(* The interpreter's own scan VM.vm_find (the hook VerifNaiveScan: every accelerator off, stack capacities carried
+   from attempt to attempt), under ANY stack limits and fuels: when the search of p in direction rtl from start and
+   the search of p' in direction (negb rtl) from tlen e - start both return, both fail or return mirror-image states.
+   (vm_find under a limit returns what vm_find without a limit returns: C13; without a limit it goes through the
+   states of the fresh-call scan up to allocated capacities: ComposeMirror.cm_vm_find_fresh.) *)
+Theorem C15_vm_find_mirror_partial :
+  forall (e : env) (p p' : program), 0 <= trackcount p -> 0 <= trackcount p' ->
+  track_count (codes p) <= trackcount p -> track_count (codes p') <= trackcount p' -> tlen e <= INF ->
+  forall L L' vfuel vfuel' o body,
+  let root := NCapture o 0 (-1) body in
+  codes p = fst (compile cfg0 root) -> strings p = snd (compile cfg0 root) ->
+  codes p' = fst (compile cfg0 (flip root)) -> strings p' = snd (compile cfg0 (flip root)) ->
+  mirror_ok root = true -> supported2 root = true ->
+  groups_ok2 (capsize p) root -> groups_ok2 (capsize p') root ->
+  term_ok root = true -> Z.of_nat (term_fuel e root) <= INF ->
+  forall rtl start prevlen x x', 0 <= start <= tlen e ->
+  vm_find e p L vfuel rtl start prevlen = Ok x ->
+  vm_find (mirror_env e) p' L' vfuel' (negb rtl) (tlen e - start) prevlen = Ok x' ->
+  match x, x' with
+  | None, None => True
+  | Some s, Some s' => cm_mirrored e p p' s s'
+  | _, _ => False
+  end.
+Proof. exact cm_vm_find_mirror. Qed.
+Print Assumptions C15_vm_find_mirror_partial.
+
+(* non-vacuity: (a)(b|c)* on "xabcb" against its flip on "bcbax" -- every hypothesis of
+   C15_exec_mirror_total_partial holds, the two interpreter runs from 1 and 4 return group 2 = (2,1) (3,1) (4,1)
+   and (2,1) (1,1) (0,1) (oldest first), the runs from 0 and 5 both fail, and the two scans return those states;
+   and the balancing group (?<a>x)z(?<b-a>y) on "xzy", whose slot of a carries a balanceMatch marker on both sides. *)
+Example C15_witness_exec := cm_demo.
+Example C15_witness_exec_balance := cm_demo_balance.
+(* vm_find left-to-right under a limit of 200 words against vm_find right-to-left without a limit *)
+Example C15_witness_vm_find := cm_demo_vm_find.
